@@ -343,7 +343,8 @@ def mask(t, mask):
     :return: masked :class:`Tensor`
     """
     device = t.cores[0].device
-    if not hasattr(t, "idxs"):
+    if not hasattr(t, "idxs") or [len(idx) for idx in t.idxs] != list(t.shape):
+        # No annotation (or a stale one: the tensor was resized since it was annotated)
         idxs = [np.arange(sh) for sh in t.shape]
     else:
         idxs = t.idxs
